@@ -624,7 +624,13 @@ def str_method(I, v, name, args, kwargs, node):
                 return SList([SStr(z3.SubString(t, 0, r)), SStr(z3.SubString(t, r + z3.Length(sep), z3.Length(t)))])
             return SList([v])
         if name == "split":
-            return ZVal(TSeq(TStr()), Cell(z3.Function("py_split", StrS, StrS, z3.SeqSort(StrS))(t, args[0].t if args else z3.StringVal(" "))))
+            sp = z3.Function("py_split", StrS, StrS, z3.SeqSort(StrS))(t, args[0].t if args else z3.StringVal(" "))
+            if args:
+                sep = args[0].t
+                # facts: at least one piece; the first piece is the text before the first separator
+                first = z3.If(z3.Contains(t, sep), z3.SubString(t, 0, z3.IndexOf(t, sep, 0)), t)
+                c.assume(z3.And(z3.Length(sp) >= 1, sp[0] == first))
+            return ZVal(TSeq(TStr()), Cell(sp))
         raise Unsupported(f"str.{name} on symbolic string")
     if name == "format":
         raise Unsupported("str.format")
